@@ -100,7 +100,12 @@ Checks(x) ==
 \* model is not a function of its input, and what was seen is within what the model can produce
 Known(n, x) ==
   LET c == x.case  o == x.obs IN
-  CASE n = "C05_Schema_Isolated" ->
+  CASE n = "C05_Det_Crds" ->
+         \* Chart.CRDObjects walks ch.Files in LOAD order: the chunks of the files under crds/ of ONE chart follow the order
+         \* in which the chart's files were loaded. Known exactly when nothing else differs: the charts come in one order and
+         \* the CRD parts are equal once the chunks of each chart are put in sorted order (the parent has two files under crds/)
+         [k |-> "p" \in Range(c.crds) /\ o.dCrdsCanon = 1 /\ Cardinality(Range(o.crdsSeen)) = 1, kf |-> "KF-L30-crd-order-follows-file-load-order"]
+    [] n = "C05_Schema_Isolated" ->
          [k |-> KnownSchemaShape(c) /\ Range(o.schema) \subseteq {"accept", "reject", "error"}, kf |-> "KF-L8-schema-ref-reads-host-files"]
     [] OTHER -> [k |-> FALSE, kf |-> ""]
 
